@@ -1,5 +1,5 @@
 import DinoProofs.Lemmas.TreeReplace
-import DinoProofs.Lemmas.TreeArr
+import DinoProofs.Lemmas.TreeLeaf
 import DinoProofs.Lemmas.TreeMore
 
 /-!
@@ -20,8 +20,14 @@ correspondence check of `harness/props/C19.py`).
   no key contains the separator.
 * `look d p` is the terminal lookup of the path `p` (`some (some b)`: leaf `b`, `some none`: empty
   dictionary); `Dict.pyEq` is Python `==` (order is ignored).
-* Arrays are lists of slices along the working axis (any number of slices, any slice contents);
-  pytrees are lists of leaves (any number, leaves of different sizes).
+* An array is a `Leaf`: its shape without the working axis (`off`) and the list of its slices along the
+  working axis (any number of slices, any slice contents); pytrees are lists of leaves (any number,
+  leaves of different sizes, ranks and off-axis shapes).  `pack` / `stack` / `concat` accept exactly the
+  inputs whose off-axis shapes agree size by size (`pack_ok_iff`, `stack_ok_iff`, `concat_ok_iff`), as
+  `jnp.concatenate` / `jnp.stack` do.
+* Keys are compared exactly (`List.Nodup`), as the code does since the repair 0ddc902 (keys that differ
+  only by trailing NUL characters are distinct keys: asserted on the real code by `harness/props/C19.py`
+  and part of the correspondence stream).
 -/
 set_option linter.unusedSectionVars false
 
@@ -124,7 +130,8 @@ theorem old_flatten_loses_empty_key_level (sep : α) (k : List α) (b : β) (hk 
 /-- (one-character separator; the code always uses the default `'&'` here)
  whenever `replace_with_matching_or_default(x, replace, default, check)` returns, the result has
  the structure of `x` (same leaf paths, same empty sub-dictionaries: the trees with all leaves
- erased are Python-equal), and the leaf at `path` is `flat_replace.get(sep.join(path), default)` -/
+ erased are Python-equal), and the leaf at `path` is `flat_replace.get(sep.join(path), default)`;
+ `replace_ok_iff` below says exactly when it returns -/
 theorem replace_preserves_structure (sep : α) (x repl : Dict α β) (dflt : β) (check : Bool)
     (r : Dict α β) (hx : x.NoDup) (h : replace sep x repl dflt check = .ok r) :
     (r.map fun _ => ()).pyEq (x.map fun _ => ()) = true ∧
@@ -139,74 +146,167 @@ theorem replace_preserves_structure (sep : α) (x repl : Dict α β) (dflt : β)
   | none => rfl
   | some t => cases t <;> rfl
 
+/-- when `replace_with_matching_or_default` returns: on genuine dictionaries `x`, `replace` exactly
+ when no key of `x` and no key of `replace` contains the separator and, with
+ `check_used_all_replace_keys`, every flattened leaf key of `replace` is a flattened leaf key of `x`
+ (`ValueError` "contains sep" / "not present in" otherwise; on such input it does raise, e.g.
+ `replace_with_matching_or_default({'x': 2}, {'q': 7})`: see the example below) -/
+theorem replace_ok_iff (sep : α) (x repl : Dict α β) (dflt : β) (check : Bool) (hx : x.NoDup)
+    (hr : repl.NoDup) :
+    (∃ r, replace sep x repl dflt check = .ok r) ↔
+      x.SepFree sep ∧ repl.SepFree sep ∧
+        (check = true → ∀ k ∈ (leafItems sep none repl.terms).map Prod.fst,
+          k ∈ (leafItems sep none x.terms).map Prod.fst) := by
+  have hcond : ∀ (l l' : List (List α × β)),
+      ((check && l.any (fun kv => !(l'.any (fun kv' => kv'.1 == kv.1)))) = true) ↔
+        ¬ (check = true → ∀ k ∈ l.map Prod.fst, k ∈ l'.map Prod.fst) := by
+    intro l l'
+    simp only [Bool.and_eq_true, List.any_eq_true, Bool.not_eq_true', List.any_eq_false, beq_iff_eq,
+      List.mem_map, Classical.not_imp, not_forall, not_exists, not_and]
+    constructor
+    · rintro ⟨hc, kv, hkv, hno⟩
+      exact ⟨hc, kv.1, ⟨kv, hkv, rfl⟩, fun kv' hkv' => by simpa using hno kv' hkv'⟩
+    · rintro ⟨hc, k, ⟨kv, hkv, rfl⟩, hno⟩
+      exact ⟨hc, kv, hkv, fun kv' hkv' => by simpa using hno kv' hkv'⟩
+  constructor
+  · rintro ⟨r, h⟩
+    unfold replace at h
+    have hsx : x.SepFree sep := by
+      cases hfx : flatten sep x with
+      | error e => simp [hfx] at h
+      | ok fx => exact flatten_sepFree sep x fx hfx
+    rw [flatten_eq sep x hsx hx] at h
+    simp only at h
+    have hsr : repl.SepFree sep := by
+      cases hfr : flatten sep repl with
+      | error e => simp [hfr] at h
+      | ok fr => exact flatten_sepFree sep repl fr hfr
+    rw [flatten_eq sep repl hsr hr] at h
+    simp only at h
+    refine ⟨hsx, hsr, ?_⟩
+    by_contra hno
+    rw [if_pos ((hcond _ _).2 hno)] at h
+    cases h
+  · rintro ⟨hsx, hsr, hused⟩
+    unfold replace
+    rw [flatten_eq sep x hsx hx, flatten_eq sep repl hsr hr]
+    simp only
+    rw [if_neg (fun hc => ((hcond _ _).1 hc) hused)]
+    set g : List α → β := fun k => (alookup k (leafItems sep none repl.terms)).getD dflt
+    rw [← leafItems_relabel sep g, ← emptyKeys_relabel sep g]
+    obtain ⟨r', hr', _, _⟩ := unflatten_terms sep (relabel sep g x.terms) (relabel_good g (x.goodTerms sep hsx hx))
+    exact ⟨r', hr'⟩
+
 end Dicts
 
-/-! ## T19.2 pytrees of arrays (axis-major view) -/
+/-! ## T19.2 pytrees of arrays (axis-major view)
+
+A leaf is `Leaf K`: its off-axis shape `off` (the shape with the working axis removed) and its slices
+along the axis; `pack` / `stack` / `concat` accept exactly what `jnp.concatenate` / `jnp.stack` accept:
+equal ranks and equal off-axis sizes, compared size by size (not only equal products). -/
 section Arrays
 variable {K : Type}
 
-/-- `unpack_to_pytree(pack_pytree(tree), shapes) == tree` for every non-empty list of leaves
- (any sizes along the axis, zero included) -/
-theorem unpack_pack (leaves : List (List (List K))) (arr : List (List K))
-    (h : pack leaves = .ok (some arr)) : unpack arr (leaves.map List.length) = .ok leaves := by
-  unfold pack at h
-  by_cases hl : leaves = []
-  · simp [hl] at h
-  · have hne : leaves.isEmpty = false := by cases leaves <;> simp_all
-    simp only [hne, Bool.false_eq_true, if_false] at h
+/-- `pack_pytree` returns an array exactly on the non-empty lists of leaves that all have the same
+ off-axis shape (same rank, same size on every axis but the working one; any number of leaves ≥ 1, any
+ sizes along the axis, zero included).  The empty list gives `None`; every other list raises
+ (`TypeError` of `jnp.concatenate`), also when the products of the off-axis sizes agree
+ (`pack_pytree([zeros((2,2,3)), zeros((2,3,2))], 0)`) and when the deviating leaf has no slice -/
+theorem pack_ok_iff (leaves : List (Leaf K)) :
+    (∃ arr, pack leaves = .ok (some arr)) ↔ leaves ≠ [] ∧ ∃ o, ∀ l ∈ leaves, l.off = o := by
+  cases leaves with
+  | nil => simp [pack]
+  | cons l ls =>
+    simp only [pack, ne_eq, reduceCtorEq, not_false_eq_true, List.mem_cons, forall_eq_or_imp, true_and]
+    constructor
+    · rintro ⟨arr, h⟩
+      split at h
+      · rename_i hall
+        exact ⟨l.off, rfl, fun m hm => by simpa using (List.all_eq_true.1 hall) m hm⟩
+      · cases h
+    · rintro ⟨o, rfl, h⟩
+      have : (ls.all fun m => decide (m.off = l.off)) = true := by
+        simpa [List.all_eq_true] using h
+      simp [this]
+
+/-- the forward operation succeeds: `pack_pytree` returns the concatenation, with the common
+ off-axis shape `o`, on every non-empty list of leaves whose off-axis shapes all equal `o` -/
+theorem pack_ok (leaves : List (Leaf K)) (hl : leaves ≠ []) (o : List Nat) (ho : ∀ l ∈ leaves, l.off = o) :
+    pack leaves = .ok (some ⟨o, (leaves.map Leaf.slices).flatten⟩) := by
+  cases leaves with
+  | nil => exact absurd rfl hl
+  | cons l ls =>
+    have hlo : l.off = o := ho l (by simp)
+    have : (ls.all fun m => decide (m.off = l.off)) = true := by
+      simp only [List.all_eq_true, decide_eq_true_eq]
+      intro m hm
+      rw [hlo]; exact ho m (by simp [hm])
+    simp only [pack, this, if_true]
+    simp [hlo]
+
+/-- the packed array of genuine arrays is a genuine array: every slice has `off.prod` entries -/
+theorem pack_wf (leaves : List (Leaf K)) (arr : Leaf K) (hwf : ∀ l ∈ leaves, l.WF)
+    (h : pack leaves = .ok (some arr)) : arr.WF := by
+  cases leaves with
+  | nil => simp [pack] at h
+  | cons l ls =>
+    simp only [pack] at h
     split at h
-    · simp only [Except.ok.injEq, Option.some.injEq] at h
+    · rename_i hall
+      simp only [Except.ok.injEq, Option.some.injEq] at h
       subst h
-      have := splitIdxFrom_flatten leaves [] hl
-      simp only [List.nil_append, List.length_nil] at this
-      have hm : (leaves.map List.length).isEmpty = false := by cases leaves <;> simp_all
-      simp [unpack, hm, splitIdx, cumsum, this]
-    · simp at h
+      intro row hrow
+      simp only [List.mem_append, List.mem_flatten, List.mem_map] at hrow
+      rcases hrow with hrow | ⟨_, ⟨m, hm, rfl⟩, hrow⟩
+      · exact hwf l (by simp) row hrow
+      · have : m.off = l.off := by simpa using (List.all_eq_true.1 hall) m hm
+        show row.length = l.off.prod
+        rw [← this]
+        exact hwf m (by simp [hm]) row hrow
+    · cases h
 
-/-- a list whose entries all equal `w` passes the `allSame` test -/
-theorem allSame_of_forall_eq (l : List Nat) (w : Nat) (h : ∀ a ∈ l, a = w) : allSame l = true := by
-  cases l with
-  | nil => rfl
-  | cons a as =>
-    have ha : a = w := h a (by simp)
-    simp only [allSame, List.all_eq_true, beq_iff_eq]
-    intro x hx
-    rw [ha]
-    exact h x (by simp [hx])
+/-- `unpack_to_pytree(pack_pytree(tree), shapes) == tree` whenever `pack_pytree` returns an array
+ (left inverse; `pack_ok_iff` says when it does): slices and off-axis shapes of every leaf come back -/
+theorem unpack_pack (leaves : List (Leaf K)) (arr : Leaf K)
+    (h : pack leaves = .ok (some arr)) : unpack arr (leaves.map fun l => l.slices.length) = .ok leaves := by
+  cases leaves with
+  | nil => simp [pack] at h
+  | cons l ls =>
+    simp only [pack] at h
+    split at h
+    · rename_i hall
+      simp only [Except.ok.injEq, Option.some.injEq] at h
+      subst h
+      have hsp := splitIdxFrom_flatten ((l :: ls).map Leaf.slices) [] (by simp)
+      simp only [List.nil_append, List.length_nil, List.map_map, List.map_cons, List.flatten_cons] at hsp
+      simp only [unpack, List.map_cons, List.isEmpty_cons, Bool.false_eq_true, if_false, splitIdx, cumsum,
+        Function.comp_def] at hsp ⊢
+      rw [hsp]
+      simp only [List.map_cons, List.map_map, Function.comp_def, Except.ok.injEq, List.cons.injEq, true_and]
+      conv_rhs => rw [← List.map_id ls]
+      apply List.map_congr_left
+      intro m hm
+      have : m.off = l.off := by simpa using (List.all_eq_true.1 hall) m hm
+      exact Leaf.ext' this.symm rfl
+    · cases h
 
-/-- the forward operation succeeds: `pack_pytree` returns the concatenation on every non-empty list
- of leaves whose slices all have the same width `w` (leaves that agree off the axis; any number of
- leaves, any sizes along the axis, zero included).  The model compares flattened slice widths (the
- product of the off-axis sizes); `jnp.concatenate` compares them axis by axis, which is stricter and
- is exercised by the correspondence check only -/
-theorem pack_ok (leaves : List (List (List K))) (hl : leaves ≠ []) (w : Nat)
-    (hw : ∀ l ∈ leaves, ∀ row ∈ l, row.length = w) : pack leaves = .ok (some leaves.flatten) := by
-  have hne : leaves.isEmpty = false := by cases leaves <;> simp_all
-  have hs : allSame (rowWidths leaves) = true := by
-    apply allSame_of_forall_eq _ w
-    intro a ha
-    simp only [rowWidths, List.mem_map, List.mem_flatten] at ha
-    obtain ⟨row, ⟨l, hl', hrow⟩, rfl⟩ := ha
-    exact hw l hl' row hrow
-  simp [pack, hne, hs]
-
-/-- unconditional form of `unpack_pack`: on every non-empty list of leaves with one slice width
+/-- unconditional form of `unpack_pack`: on every non-empty list of leaves with one off-axis shape
  `pack_pytree` returns and `unpack_to_pytree` gives the leaves back -/
-theorem unpack_pack_consistent (leaves : List (List (List K))) (hl : leaves ≠ []) (w : Nat)
-    (hw : ∀ l ∈ leaves, ∀ row ∈ l, row.length = w) :
-    ∃ arr, pack leaves = .ok (some arr) ∧ unpack arr (leaves.map List.length) = .ok leaves :=
-  ⟨_, pack_ok leaves hl w hw, unpack_pack leaves _ (pack_ok leaves hl w hw)⟩
+theorem unpack_pack_consistent (leaves : List (Leaf K)) (hl : leaves ≠ []) (o : List Nat)
+    (ho : ∀ l ∈ leaves, l.off = o) :
+    ∃ arr, pack leaves = .ok (some arr) ∧ unpack arr (leaves.map fun l => l.slices.length) = .ok leaves :=
+  ⟨_, pack_ok leaves hl o ho, unpack_pack leaves _ (pack_ok leaves hl o ho)⟩
 
 /-- `pack_pytree(unpack_to_pytree(arr, shapes)) == arr` for every array and every non-empty list of
- sizes, honest or not (`jnp.split` clips) -/
-theorem pack_unpack (arr : List (List K)) (sizes : List Nat) (hs : sizes ≠ [])
-    (harr : allSame (arr.map List.length) = true) :
-    ∃ pieces, unpack arr sizes = .ok pieces ∧ pieces.length = sizes.length ∧ pieces.flatten = arr ∧
+ sizes, honest or not (`jnp.split` clips): the right-inverse law of the pair pack / unpack -/
+theorem pack_unpack (arr : Leaf K) (sizes : List Nat) (hs : sizes ≠ []) :
+    ∃ pieces, unpack arr sizes = .ok pieces ∧ pieces.length = sizes.length ∧
+      (∀ p ∈ pieces, p.off = arr.off) ∧ (pieces.map Leaf.slices).flatten = arr.slices ∧
       pack pieces = .ok (some arr) := by
   have hm : sizes.isEmpty = false := by cases sizes <;> simp_all
-  have hfl : (splitIdx arr (cumsum sizes).dropLast).flatten = arr := by
-    simpa [splitIdx, cumsum] using flatten_splitIdxFrom_cumsum arr sizes 0 hs
-  have hlen : ∀ (idx : List Nat) (start : Nat), (splitIdxFrom arr start idx).length = idx.length + 1 := by
+  have hfl : (splitIdx arr.slices (cumsum sizes).dropLast).flatten = arr.slices := by
+    simpa [splitIdx, cumsum] using flatten_splitIdxFrom_cumsum arr.slices sizes 0 hs
+  have hlen : ∀ (idx : List Nat) (start : Nat), (splitIdxFrom arr.slices start idx).length = idx.length + 1 := by
     intro idx
     induction idx with
     | nil => intro start; rfl
@@ -216,143 +316,250 @@ theorem pack_unpack (arr : List (List K)) (sizes : List Nat) (hs : sizes ≠ [])
     induction l with
     | nil => intro acc; rfl
     | cons a as ih => intro acc; simp [cumsumFrom, ih]
-  have hplen : (splitIdx arr (cumsum sizes).dropLast).length = sizes.length := by
+  have hplen : (splitIdx arr.slices (cumsum sizes).dropLast).length = sizes.length := by
     rw [splitIdx, hlen, List.length_dropLast, cumsum, hclen]
     cases sizes with
     | nil => exact absurd rfl hs
     | cons a as => simp
-  refine ⟨_, by simp [unpack, hm], hplen, hfl, ?_⟩
-  have hne : (splitIdx arr (cumsum sizes).dropLast).isEmpty = false := by
-    cases h : splitIdx arr (cumsum sizes).dropLast with
-    | nil => rw [h] at hplen; cases sizes <;> simp_all
-    | cons a as => rfl
-  simp [pack, hne, rowWidths, hfl, harr]
+  set pieces := (splitIdx arr.slices (cumsum sizes).dropLast).map (fun s => (⟨arr.off, s⟩ : Leaf K)) with hp
+  have hoff : ∀ p ∈ pieces, p.off = arr.off := by
+    intro p hpm
+    simp only [hp, List.mem_map] at hpm
+    obtain ⟨s, _, rfl⟩ := hpm
+    rfl
+  have hsl : (pieces.map Leaf.slices).flatten = arr.slices := by
+    rw [hp, List.map_map]
+    simpa [Function.comp_def] using hfl
+  have hne : pieces ≠ [] := by
+    intro h0
+    have : pieces.length = sizes.length := by rw [hp, List.length_map, hplen]
+    rw [h0] at this
+    cases sizes <;> simp_all
+  refine ⟨pieces, by simp [unpack, hm, hp], by rw [hp, List.length_map, hplen], hoff, hsl, ?_⟩
+  rw [pack_ok pieces hne arr.off hoff, hsl]
 
-/-- `unstack_to_pytree(stack_pytree(tree), shapes) == tree` for every non-empty list of leaves -/
-theorem unstack_stack (leaves : List (List K)) (arr : List (List K))
-    (h : stack leaves = .ok (some arr)) : unstack arr leaves.length = .ok leaves := by
-  unfold stack at h
+/-- `stack_pytree` returns an array exactly on the non-empty lists of leaves that all have the same
+ shape (rank included; equal numbers of entries are not enough: `(2, 3)` and `(3, 2)` raise) -/
+theorem stack_ok_iff (leaves : List (Arr K)) :
+    (∃ arr, stack leaves = .ok (some arr)) ↔ leaves ≠ [] ∧ ∃ s, ∀ l ∈ leaves, l.shape = s := by
   cases leaves with
-  | nil => simp at h
+  | nil => simp [stack]
   | cons l ls =>
-    simp only [List.isEmpty_cons, Bool.false_eq_true, if_false] at h
+    simp only [stack, ne_eq, reduceCtorEq, not_false_eq_true, List.mem_cons, forall_eq_or_imp, true_and]
+    constructor
+    · rintro ⟨arr, h⟩
+      split at h
+      · rename_i hall
+        exact ⟨l.shape, rfl, fun m hm => by simpa using (List.all_eq_true.1 hall) m hm⟩
+      · cases h
+    · rintro ⟨o, rfl, h⟩
+      have : (ls.all fun m => decide (m.shape = l.shape)) = true := by
+        simpa [List.all_eq_true] using h
+      simp [this]
+
+/-- the forward operation succeeds: `stack_pytree` returns on every non-empty list of leaves of one
+ shape `s`; along the new axis the slices are the leaves and the off-axis shape is `s` -/
+theorem stack_ok (leaves : List (Arr K)) (hl : leaves ≠ []) (s : List Nat) (hs : ∀ l ∈ leaves, l.shape = s) :
+    stack leaves = .ok (some ⟨s, leaves.map Arr.data⟩) := by
+  cases leaves with
+  | nil => exact absurd rfl hl
+  | cons l ls =>
+    have hlo : l.shape = s := hs l (by simp)
+    have : (ls.all fun m => decide (m.shape = l.shape)) = true := by
+      simp only [List.all_eq_true, decide_eq_true_eq]
+      intro m hm
+      rw [hlo]; exact hs m (by simp [hm])
+    simp only [stack, this, if_true]
+    simp [hlo]
+
+/-- `unstack_to_pytree(stack_pytree(tree), shapes) == tree` whenever `stack_pytree` returns an array
+ (left inverse): data and shape of every leaf come back -/
+theorem unstack_stack (leaves : List (Arr K)) (arr : Leaf K)
+    (h : stack leaves = .ok (some arr)) : unstack arr leaves.length = .ok leaves := by
+  cases leaves with
+  | nil => simp [stack] at h
+  | cons l ls =>
+    simp only [stack] at h
     split at h
-    · simp only [Except.ok.injEq, Option.some.injEq] at h
+    · rename_i hall
+      simp only [Except.ok.injEq, Option.some.injEq] at h
       subst h
-      simp [unstack, sections_flatten]
-    · simp at h
+      have hsec := sections_flatten (l.data :: ls.map Arr.data)
+      simp only [unstack, List.length_cons, List.length_map, Nat.add_one_ne_zero, if_false, ne_eq,
+        not_true_eq_false, Except.ok.injEq]
+      have : (sections (l.data :: ls.map Arr.data)).map (fun s => (⟨l.shape, s.flatten⟩ : Arr K))
+          = ((sections (l.data :: ls.map Arr.data)).map List.flatten).map (fun d => ⟨l.shape, d⟩) := by
+        rw [List.map_map]; rfl
+      rw [this, hsec]
+      simp only [List.map_cons, List.map_map, Function.comp_def, List.cons.injEq, true_and]
+      conv_rhs => rw [← List.map_id ls]
+      apply List.map_congr_left
+      intro m hm
+      have : m.shape = l.shape := by simpa using (List.all_eq_true.1 hall) m hm
+      cases m
+      simp_all
+    · cases h
 
-/-- the forward operation succeeds: `stack_pytree` returns on every non-empty list of leaves of the
- same (flattened) size `w` -/
-theorem stack_ok (leaves : List (List K)) (hl : leaves ≠ []) (w : Nat) (hw : ∀ l ∈ leaves, l.length = w) :
-    stack leaves = .ok (some leaves) := by
-  have hne : leaves.isEmpty = false := by cases leaves <;> simp_all
-  have hs : allSame (leaves.map List.length) = true := by
-    apply allSame_of_forall_eq _ w
-    intro a ha
-    simp only [List.mem_map] at ha
-    obtain ⟨l, hl', rfl⟩ := ha
-    exact hw l hl'
-  simp [stack, hne, hs]
-
-/-- unconditional form of `unstack_stack`: on every non-empty list of leaves of one size
+/-- unconditional form of `unstack_stack`: on every non-empty list of leaves of one shape
  `stack_pytree` returns and `unstack_to_pytree` gives the leaves back -/
-theorem unstack_stack_consistent (leaves : List (List K)) (hl : leaves ≠ []) (w : Nat)
-    (hw : ∀ l ∈ leaves, l.length = w) :
+theorem unstack_stack_consistent (leaves : List (Arr K)) (hl : leaves ≠ []) (s : List Nat)
+    (hs : ∀ l ∈ leaves, l.shape = s) :
     ∃ arr, stack leaves = .ok (some arr) ∧ unstack arr leaves.length = .ok leaves :=
-  ⟨_, stack_ok leaves hl w hw, unstack_stack leaves _ (stack_ok leaves hl w hw)⟩
+  ⟨_, stack_ok leaves hl s hs, unstack_stack leaves _ (stack_ok leaves hl s hs)⟩
+
+/-- the converse law: `stack_pytree(unstack_to_pytree(arr, shapes)) == arr` whenever
+ `unstack_to_pytree` returns (the axis is not empty and the template has one leaf per index), so that
+ stack / unstack are two-sided inverses -/
+theorem stack_unstack (arr : Leaf K) (n : Nat) (leaves : List (Arr K)) (h : unstack arr n = .ok leaves) :
+    leaves.length = n ∧ stack leaves = .ok (some arr) := by
+  unfold unstack at h
+  split_ifs at h with h0 hn
+  simp only [Except.ok.injEq] at h
+  have hsec := sections_flatten arr.slices
+  have hl : leaves = arr.slices.map (fun d => (⟨arr.off, d⟩ : Arr K)) := by
+    rw [← h]
+    conv_rhs => rw [← hsec]
+    rw [List.map_map]; rfl
+  have hne : leaves ≠ [] := by
+    rw [hl]
+    intro h'
+    exact h0 (by simpa using congrArg List.length h')
+  have hshape : ∀ l ∈ leaves, l.shape = arr.off := by
+    intro l hm
+    rw [hl] at hm
+    simp only [List.mem_map] at hm
+    obtain ⟨d, _, rfl⟩ := hm
+    rfl
+  refine ⟨by rw [hl, List.length_map]; exact not_not.1 hn, ?_⟩
+  rw [stack_ok leaves hne arr.off hshape, hl, List.map_map]
+  simp [Function.comp_def]
+
+/-- `unstack_to_pytree` returns exactly when the axis is not empty and the template has one leaf per
+ index along the axis (`ZeroDivisionError` of `jnp.split(arr, 0)` / `ValueError` of `tree_unflatten`
+ otherwise) -/
+theorem unstack_ok_iff (arr : Leaf K) (n : Nat) :
+    (∃ leaves, unstack arr n = .ok leaves) ↔ n ≠ 0 ∧ arr.slices.length = n := by
+  unfold unstack
+  constructor
+  · rintro ⟨leaves, h⟩
+    split_ifs at h with h0 hn
+    exact ⟨fun hz => h0 (by rw [not_not.1 hn, hz]), not_not.1 hn⟩
+  · rintro ⟨hn, hlen⟩
+    simp [hlen, hn]
 
 /-- `concat_along_axis(split_along_axis(tree, idx, axis), axis) == tree` for every tree (leaves of
- different sizes) and every index, negative and out-of-range ones included -/
-theorem concat_split (leaves : List (List (List K))) (idx : Int)
-    (hleaf : ∀ l ∈ leaves, allSame (l.map List.length) = true) :
+ different sizes, ranks and off-axis shapes) and every index, negative and out-of-range ones included -/
+theorem concat_split (leaves : List (Leaf K)) (idx : Int) :
     concat [(splitAlong leaves idx).1, (splitAlong leaves idx).2] = .ok leaves := by
-  have hz := zipWith_take_drop leaves (fun l => pyIndex l.length idx)
-  simp only [concat, splitAlong, List.any_cons, List.any_nil, List.length_map, bne_self_eq_false,
-    Bool.or_false, Bool.false_eq_true, if_false, List.foldl_cons, List.foldl_nil, hz]
-  have : leaves.all (fun leaf => allSame (leaf.map List.length)) = true := by
-    simpa [List.all_eq_true] using hleaf
-  simp [this]
+  have hoff : offsAgree (splitAlong leaves idx).1 (splitAlong leaves idx).2 = true := by
+    rw [offsAgree_iff _ _ (by simp [splitAlong])]
+    simp [splitAlong, List.map_map, Function.comp_def]
+  have hcat : catLeaves (splitAlong leaves idx).1 (splitAlong leaves idx).2 = leaves := by
+    simp only [splitAlong, catLeaves]
+    induction leaves with
+    | nil => rfl
+    | cons l ls ih => simp
+  simp only [concat, List.any_cons, List.any_nil, List.all_cons, List.all_nil, hoff, List.foldl_cons,
+    List.foldl_nil, hcat]
+  simp [splitAlong]
 
-/-- every entry of `zipWith (· ++ ·) a b` is `x ++ y` with `x ∈ a`, `y ∈ b` -/
-theorem mem_zipWith_append {β : Type} (a b : List (List β)) (leaf : List β)
-    (h : leaf ∈ List.zipWith (· ++ ·) a b) : ∃ x ∈ a, ∃ y ∈ b, leaf = x ++ y := by
-  induction a generalizing b with
-  | nil => simp at h
-  | cons x xs ih =>
-    cases b with
-    | nil => simp at h
-    | cons y ys =>
-      simp only [List.zipWith_cons_cons, List.mem_cons] at h
-      rcases h with h | h
-      · exact ⟨x, by simp, y, by simp, h⟩
-      · obtain ⟨x', hx', y', hy', e⟩ := ih ys h
-        exact ⟨x', by simp [hx'], y', by simp [hy'], e⟩
+/-- `concat_along_axis` returns exactly when there is a first tree and every other tree has the same
+ number of leaves with, position by position, the off-axis shapes of the first tree's leaves -/
+theorem concat_ok_iff (t : List (Leaf K)) (ts : List (List (Leaf K))) :
+    (∃ r, concat (t :: ts) = .ok r) ↔ ∀ u ∈ ts, u.map Leaf.off = t.map Leaf.off := by
+  simp only [concat]
+  constructor
+  · rintro ⟨r, h⟩
+    split_ifs at h with h1 h2
+    intro u hu
+    have hlen : u.length = t.length := by
+      by_contra hne
+      exact h1 (List.any_eq_true.2 ⟨u, hu, by simpa using hne⟩)
+    exact (offsAgree_iff t u hlen).1 ((List.all_eq_true.1 h2) u hu)
+  · intro h
+    have hlen : ∀ u ∈ ts, u.length = t.length := fun u hu => by
+      simpa using congrArg List.length (h u hu)
+    have h1 : ¬ (ts.any fun u => u.length != t.length) = true := by
+      rw [List.any_eq_true]
+      rintro ⟨u, hu, hne⟩
+      simp [hlen u hu] at hne
+    have h2 : ts.all (offsAgree t) = true :=
+      List.all_eq_true.2 fun u hu => (offsAgree_iff t u (hlen u hu)).2 (h u hu)
+    simp [h1, h2]
 
 /-- the forward operation succeeds: `concat_along_axis([a, b], axis)` returns the leaf-wise
- concatenation for two trees with the same number of leaves whose slices all have the same width -/
-theorem concat_ok_two (a b : List (List (List K))) (hlen : b.length = a.length) (w : Nat)
-    (hw : ∀ l ∈ a ++ b, ∀ row ∈ l, row.length = w) :
-    concat [a, b] = .ok (List.zipWith (· ++ ·) a b) := by
-  have hall : ((List.zipWith (· ++ ·) a b).all fun leaf => allSame (leaf.map List.length)) = true := by
-    simp only [List.all_eq_true]
-    intro leaf hleaf
-    apply allSame_of_forall_eq _ w
-    intro c hc
-    simp only [List.mem_map] at hc
-    obtain ⟨row, hrow, rfl⟩ := hc
-    obtain ⟨x, hx, y, hy, rfl⟩ := mem_zipWith_append a b leaf hleaf
-    rcases List.mem_append.1 hrow with h | h
-    · exact hw x (by simp [hx]) row h
-    · exact hw y (by simp [hy]) row h
-  simp [concat, hlen, hall]
+ concatenation for two trees with the same number of leaves and, position by position, the same
+ off-axis shapes -/
+theorem concat_ok_two (a b : List (Leaf K)) (ho : b.map Leaf.off = a.map Leaf.off) :
+    concat [a, b] = .ok (catLeaves a b) := by
+  have hlen : b.length = a.length := by simpa using congrArg List.length ho
+  have := (offsAgree_iff a b hlen).2 ho
+  simp [concat, hlen, this]
 
 /-- splitting the concatenation of two trees where the first one has `n` slices in every leaf gives
  the two trees back -/
-theorem split_concat (a b c : List (List (List K))) (n : Nat) (ha : ∀ l ∈ a, l.length = n)
+theorem split_concat (a b c : List (Leaf K)) (n : Nat) (ha : ∀ l ∈ a, l.slices.length = n)
     (h : concat [a, b] = .ok c) : splitAlong c (n : Int) = (a, b) := by
-  have h' : (if ([b].any fun u => u.length != a.length) = true then (Except.error Err.tree : Except Err _)
-      else if ((List.zipWith (· ++ ·) a b).all fun leaf => allSame (leaf.map List.length)) = true
-        then Except.ok (List.zipWith (· ++ ·) a b) else Except.error Err.shape) = Except.ok c := h
-  clear h
-  split_ifs at h' with hlen hall
-  · simp only [Except.ok.injEq] at h'
-    subst h'
-    · have hlen' : b.length = a.length := by simpa using hlen
-      clear hlen hall
-      simp only [splitAlong, Prod.mk.injEq]
-      induction a generalizing b with
-      | nil =>
-        cases b with
-        | nil => simp
-        | cons _ _ => simp at hlen'
-      | cons x xs ih =>
-        cases b with
-        | nil => simp at hlen'
-        | cons y ys =>
-          have hx : x.length = n := ha x (by simp)
-          have ih' := ih ys (fun l hl => ha l (by simp [hl])) (by simpa using hlen')
-          have hp : pyIndex (x ++ y).length (n : Int) = n := by
-            simp [pyIndex, hx]
-          simp only [List.zipWith_cons_cons, List.map_cons, List.cons.injEq, hp]
-          refine ⟨⟨?_, ih'.1⟩, ?_, ih'.2⟩
-          · rw [← hx]; simp
-          · rw [← hx]; simp
+  have ho : b.map Leaf.off = a.map Leaf.off := (concat_ok_iff a [b]).1 ⟨c, h⟩ b (by simp)
+  rw [concat_ok_two a b ho] at h
+  simp only [Except.ok.injEq] at h
+  subst h
+  simp only [splitAlong, catLeaves, Prod.mk.injEq]
+  induction a generalizing b with
+  | nil =>
+    cases b with
+    | nil => simp
+    | cons _ _ => simp at ho
+  | cons x xs ih =>
+    cases b with
+    | nil => simp at ho
+    | cons y ys =>
+      simp only [List.map_cons, List.cons.injEq] at ho
+      have hx : x.slices.length = n := ha x (by simp)
+      have ih' := ih ys (fun l hl => ha l (by simp [hl])) ho.2
+      have hp : pyIndex (x.slices ++ y.slices).length (n : Int) = n := by
+        simp [pyIndex, hx]
+      simp only [List.zipWith_cons_cons, List.map_cons, List.cons.injEq, hp]
+      refine ⟨⟨?_, ih'.1⟩, ?_, ih'.2⟩
+      · refine Leaf.ext' rfl ?_
+        show (x.slices ++ y.slices).take n = x.slices
+        rw [← hx]; simp
+      · refine Leaf.ext' ho.1.symm ?_
+        show (x.slices ++ y.slices).drop n = y.slices
+        rw [← hx]; simp
 
-/-- unconditional form of `split_concat`: for two trees with the same number of leaves and one slice
- width, where every leaf of the first has `n` slices, the concatenation returns and splitting it at
- `n` gives the two trees back -/
-theorem split_concat_consistent (a b : List (List (List K))) (n : Nat) (ha : ∀ l ∈ a, l.length = n)
-    (hlen : b.length = a.length) (w : Nat) (hw : ∀ l ∈ a ++ b, ∀ row ∈ l, row.length = w) :
+/-- unconditional form of `split_concat`: for two trees with the same number of leaves and the same
+ off-axis shapes, where every leaf of the first has `n` slices, the concatenation returns and
+ splitting it at `n` gives the two trees back -/
+theorem split_concat_consistent (a b : List (Leaf K)) (n : Nat) (ha : ∀ l ∈ a, l.slices.length = n)
+    (ho : b.map Leaf.off = a.map Leaf.off) :
     ∃ c, concat [a, b] = .ok c ∧ splitAlong c (n : Int) = (a, b) :=
-  ⟨_, concat_ok_two a b hlen w hw, split_concat a b _ n ha (concat_ok_two a b hlen w hw)⟩
+  ⟨_, concat_ok_two a b ho, split_concat a b _ n ha (concat_ok_two a b ho)⟩
 
-/-- `concat_along_axis(split_axis(tree, axis, keep_dims=True), axis) == tree` -/
-theorem concat_splitAxis (leaves : List (List (List K))) (trees : List (List (List (List K))))
-    (hleaf : ∀ l ∈ leaves, allSame (l.map List.length) = true)
-    (h : splitAxis leaves = .ok trees) : concat trees = .ok leaves := by
+/-- the forward operation succeeds: `split_axis(tree, axis, keep_dims=True)` returns one tree per index
+ for every non-empty list of leaves that all have the same non-zero number `n` of slices -/
+theorem splitAxis_ok (leaves : List (Leaf K)) (hl : leaves ≠ []) (n : Nat) (hn : n ≠ 0)
+    (hlen : ∀ l ∈ leaves, l.slices.length = n) :
+    splitAxis leaves = .ok ((List.range n).map (fun i => sliceAt i leaves)) := by
+  cases leaves with
+  | nil => exact absurd rfl hl
+  | cons x xs =>
+    have hx : x.slices.length = n := hlen x (by simp)
+    have hall : (xs.map fun l => l.slices.length).all (· == n) = true := by
+      simp only [List.all_eq_true, beq_iff_eq, List.mem_map]
+      rintro a ⟨l, hl', rfl⟩
+      exact hlen l (by simp [hl'])
+    simp only [splitAxis, List.map_cons, hx, hall, if_true, hn, if_false]
+    rfl
+
+/-- whenever `split_axis` returns, all leaves have the same non-zero number of slices and the result is
+ one tree per index -/
+theorem splitAxis_spec (leaves : List (Leaf K)) (trees : List (List (Leaf K)))
+    (h : splitAxis leaves = .ok trees) :
+    ∃ n, n ≠ 0 ∧ leaves ≠ [] ∧ (∀ l ∈ leaves, l.slices.length = n) ∧
+      trees = (List.range n).map (fun i => sliceAt i leaves) := by
   unfold splitAxis at h
-  cases hl : leaves.map List.length with
+  cases hl : leaves.map (fun l => l.slices.length) with
   | nil => simp [hl] at h
   | cons n rest =>
     simp only [hl] at h
@@ -362,106 +569,126 @@ theorem concat_splitAxis (leaves : List (List (List K))) (trees : List (List (Li
       · cases h
       · rename_i hn
         simp only [Except.ok.injEq] at h
-        subst h
-        have hlen : ∀ l ∈ leaves, l.length = n := by
-          intro l hm
-          have : l.length ∈ n :: rest := by rw [← hl]; exact List.mem_map_of_mem hm
+        refine ⟨n, hn, ?_, ?_, h.symm⟩
+        · rintro rfl; simp at hl
+        · intro l hm
+          have : l.slices.length ∈ n :: rest := by
+            rw [← hl]; exact List.mem_map_of_mem (f := fun l : Leaf K => l.slices.length) hm
           simp only [List.mem_cons] at this
           rcases this with h' | h'
           · exact h'
           · simpa using (List.all_eq_true.1 hall) _ h'
-        obtain ⟨m, rfl⟩ : ∃ m, n = m + 1 := ⟨n - 1, by omega⟩
-        have hfold := foldl_zipWith_slices leaves m 1
-        have h0 : (leaves.map fun l => slice l 0 (0 + 1)) = leaves.map fun l => l.take 1 := by
-          simp [slice]
-        have htk : (leaves.map fun l => l.take (1 + m)) = leaves := by
-          conv_rhs => rw [← List.map_id leaves]
-          apply List.map_congr_left
-          intro l hm
-          rw [id, List.take_of_length_le (by rw [hlen l hm]; omega)]
-        rw [List.range_eq_range', List.range'_succ]
-        simp only [concat, List.map_cons, List.any_map, List.length_map, bne_self_eq_false,
-          Function.comp_def, List.any_eq_true, Bool.false_eq_true, and_false, exists_false, if_false]
-        rw [h0, hfold, htk]
-        have : leaves.all (fun leaf => allSame (leaf.map List.length)) = true := by
-          simpa [List.all_eq_true] using hleaf
-        simp [this]
     · cases h
 
-/-- the forward operation succeeds: `split_axis(tree, axis, keep_dims=True)` returns one tree per index
- for every non-empty list of leaves that all have the same non-zero number `n` of slices -/
-theorem splitAxis_ok (leaves : List (List (List K))) (hl : leaves ≠ []) (n : Nat) (hn : n ≠ 0)
-    (hlen : ∀ l ∈ leaves, l.length = n) :
-    splitAxis leaves = .ok ((List.range n).map (fun i => leaves.map (fun l => slice l i (i + 1)))) := by
-  cases leaves with
-  | nil => exact absurd rfl hl
-  | cons x xs =>
-    have hx : x.length = n := hlen x (by simp)
-    have hxs : ∀ a ∈ xs.map List.length, a = n := by
-      intro a ha
-      simp only [List.mem_map] at ha
-      obtain ⟨l, hl', rfl⟩ := ha
-      exact hlen l (by simp [hl'])
-    have hall : (xs.map List.length).all (· == n) = true := by
-      simp only [List.all_eq_true, beq_iff_eq]
-      exact hxs
-    simp only [splitAxis, List.map_cons, hx, hall, if_true, hn, if_false]
+/-- `concat_along_axis(split_axis(tree, axis, keep_dims=True), axis) == tree` whenever `split_axis`
+ returns (left inverse) -/
+theorem concat_splitAxis (leaves : List (Leaf K)) (trees : List (List (Leaf K)))
+    (h : splitAxis leaves = .ok trees) : concat trees = .ok leaves := by
+  obtain ⟨n, hn, _, hlen, rfl⟩ := splitAxis_spec leaves trees h
+  obtain ⟨m, rfl⟩ : ∃ m, n = m + 1 := ⟨n - 1, by omega⟩
+  have hfold := foldl_catLeaves_slices leaves m 1
+  have h0 : sliceAt 0 leaves = leaves.map fun l => ⟨l.off, l.slices.take 1⟩ := by
+    simp [sliceAt, slice]
+  have htk : (leaves.map fun l => (⟨l.off, l.slices.take (1 + m)⟩ : Leaf K)) = leaves := by
+    conv_rhs => rw [← List.map_id leaves]
+    apply List.map_congr_left
+    intro l hm
+    refine Leaf.ext' rfl ?_
+    show l.slices.take (1 + m) = l.slices
+    rw [List.take_of_length_le (by rw [hlen l hm]; omega)]
+  rw [List.range_eq_range', List.range'_succ, List.map_cons]
+  have hok := (concat_ok_iff (sliceAt 0 leaves) ((List.range' (0 + 1) m).map fun i => sliceAt i leaves)).2
+    (by
+      intro u hu
+      simp only [List.mem_map] at hu
+      obtain ⟨i, _, rfl⟩ := hu
+      rw [sliceAt_off, sliceAt_off])
+  obtain ⟨r, hr⟩ := hok
+  have hr' := hr
+  simp only [concat] at hr'
+  split_ifs at hr' with h1 h2
+  rw [hr, ← hr']
+  simp only [Nat.zero_add] at hfold ⊢
+  rw [h0, hfold, htk]
 
 /-- unconditional form of `concat_splitAxis`: on every non-empty list of leaves with `n ≠ 0` slices
- each and one slice width, `split_axis` returns and concatenating its trees gives the leaves back -/
-theorem concat_splitAxis_consistent (leaves : List (List (List K))) (hl : leaves ≠ []) (n : Nat) (hn : n ≠ 0)
-    (hlen : ∀ l ∈ leaves, l.length = n) (w : Nat) (hw : ∀ l ∈ leaves, ∀ row ∈ l, row.length = w) :
-    ∃ trees, splitAxis leaves = .ok trees ∧ concat trees = .ok leaves := by
-  refine ⟨_, splitAxis_ok leaves hl n hn hlen, concat_splitAxis leaves _ ?_ (splitAxis_ok leaves hl n hn hlen)⟩
-  intro l hl'
-  apply allSame_of_forall_eq _ w
-  intro a ha
-  simp only [List.mem_map] at ha
-  obtain ⟨row, hr, rfl⟩ := ha
-  exact hw l hl' row hr
+ each, `split_axis` returns and concatenating its trees gives the leaves back -/
+theorem concat_splitAxis_consistent (leaves : List (Leaf K)) (hl : leaves ≠ []) (n : Nat) (hn : n ≠ 0)
+    (hlen : ∀ l ∈ leaves, l.slices.length = n) :
+    ∃ trees, splitAxis leaves = .ok trees ∧ concat trees = .ok leaves :=
+  ⟨_, splitAxis_ok leaves hl n hn hlen, concat_splitAxis leaves _ (splitAxis_ok leaves hl n hn hlen)⟩
+
+/-- the converse law: `split_axis(concat_along_axis(trees, axis), axis, keep_dims=True) == trees`
+ whenever `concat_along_axis` returns, for trees that have at least one leaf and whose leaves have
+ exactly one slice along the axis (the trees that `split_axis` produces), so that split_axis /
+ concat_along_axis are two-sided inverses on them -/
+theorem splitAxis_concat (trees : List (List (Leaf K))) (leaves : List (Leaf K))
+    (hleaf : ∀ t ∈ trees, t ≠ []) (h1 : ∀ t ∈ trees, ∀ l ∈ t, l.slices.length = 1)
+    (h : concat trees = .ok leaves) : splitAxis leaves = .ok trees := by
+  cases trees with
+  | nil => simp [concat] at h
+  | cons t ts =>
+    have ho := (concat_ok_iff t ts).1 ⟨leaves, h⟩
+    simp only [concat] at h
+    split_ifs at h with h2 h3
+    simp only [Except.ok.injEq] at h
+    obtain ⟨s1, s2, s3, s4⟩ := foldl_catLeaves_spec ts t 1 (h1 t (by simp))
+      (fun u hu => ⟨ho u hu, h1 u (by simp [hu])⟩)
+    rw [h] at s1 s2 s3 s4
+    have hne : leaves ≠ [] := by
+      intro h0
+      rw [h0] at s1
+      have : t = [] := by simpa using s1.symm
+      exact hleaf t (by simp) this
+    rw [splitAxis_ok leaves hne (1 + ts.length) (by omega) s2]
+    congr 1
+    apply List.ext_getElem
+    · simp; omega
+    · intro i hi1 hi2
+      simp only [List.getElem_map, List.getElem_range]
+      cases i with
+      | zero =>
+        rw [s3 0 (by omega), sliceAt_zero_of_single t (h1 t (by simp))]
+        rfl
+      | succ j =>
+        have hj : j < ts.length := by simpa using hi2
+        have := s4 j hj
+        rw [show 1 + j = j + 1 by omega] at this
+        rw [this]
+        simp
 
 /-- `split_axis(tree, axis, keep_dims=False)` is the transpose: leaf `j` of tree `i` is slice `i`
- of leaf `j` (so stacking the `j`-th leaves back along the axis gives leaf `j`) -/
-theorem splitAxisSqueeze_transpose (leaves : List (List (List K))) (ts : List (List (List K)))
+ of leaf `j` with the off-axis shape of leaf `j` (so stacking the `j`-th leaves back along the axis
+ gives leaf `j`) -/
+theorem splitAxisSqueeze_transpose (leaves : List (Leaf K)) (ts : List (List (Arr K)))
     (h : splitAxisSqueeze leaves = .ok ts) :
-    ∀ i j : Nat, (ts[i]?).bind (·[j]?) = (leaves[j]?).bind (·[i]?) := by
-  unfold splitAxisSqueeze splitAxis at h
-  cases hl : leaves.map List.length with
-  | nil => simp [hl, Except.map] at h
-  | cons n rest =>
-    simp only [hl] at h
-    split at h
-    · rename_i hall
-      split at h
-      · simp [Except.map] at h
-      · simp only [Except.map, Except.ok.injEq] at h
-        subst h
-        have hlen : ∀ l ∈ leaves, l.length = n := by
-          intro l hm
-          have : l.length ∈ n :: rest := by rw [← hl]; exact List.mem_map_of_mem hm
-          simp only [List.mem_cons] at this
-          rcases this with h' | h'
-          · exact h'
-          · simpa using (List.all_eq_true.1 hall) _ h'
-        intro i j
-        cases hj : leaves[j]? with
-        | none =>
-          simp only [Option.bind_none]
-          by_cases hi : i < n
-          · simp [hi, hj]
-          · simp [hi]
-        | some l =>
-          have hm : l ∈ leaves := List.mem_of_getElem? hj
-          simp only [Option.bind_some]
-          by_cases hi : i < n
-          · have hil : i < l.length := by rw [hlen l hm]; exact hi
-            have : ((l.take (i + 1)).drop i) = [l[i]] := by
-              rw [List.drop_take, show i + 1 - i = 1 by omega, List.drop_eq_getElem_cons hil]
-              rfl
-            simp [hi, hj, slice, this, List.getElem?_eq_getElem hil]
-          · have : l.length ≤ i := by rw [hlen l hm]; omega
-            simp [hi, List.getElem?_eq_none this]
-    · simp [Except.map] at h
+    ∀ i j : Nat, (ts[i]?).bind (·[j]?) =
+      (leaves[j]?).bind (fun l => (l.slices[i]?).map (fun s => ⟨l.off, s⟩)) := by
+  unfold splitAxisSqueeze at h
+  cases hs : splitAxis leaves with
+  | error e => simp [hs, Except.map] at h
+  | ok trees =>
+    obtain ⟨n, hn, _, hlen, rfl⟩ := splitAxis_spec leaves trees hs
+    simp only [hs, Except.map, Except.ok.injEq] at h
+    subst h
+    intro i j
+    cases hj : leaves[j]? with
+    | none =>
+      simp only [Option.bind_none]
+      by_cases hi : i < n
+      · simp [hi, hj, sliceAt]
+      · simp [hi]
+    | some l =>
+      have hm : l ∈ leaves := List.mem_of_getElem? hj
+      simp only [Option.bind_some]
+      by_cases hi : i < n
+      · have hil : i < l.slices.length := by rw [hlen l hm]; exact hi
+        have : ((l.slices.take (i + 1)).drop i) = [l.slices[i]] := by
+          rw [List.drop_take, show i + 1 - i = 1 by omega, List.drop_eq_getElem_cons hil]
+          rfl
+        simp [hi, hj, sliceAt, slice, this, List.getElem?_eq_getElem hil]
+      · have : l.slices.length ≤ i := by rw [hlen l hm]; omega
+        simp [hi, List.getElem?_eq_none this]
 
 end Arrays
 
@@ -773,27 +1000,54 @@ example : replace '&' exDict (.cons ['x'] (.leaf 7) .nil) 0 true
     = .ok (.cons [] (.dict (.cons ['a'] (.leaf 0) (.cons [] (.dict .nil) .nil))) (.cons ['x'] (.leaf 7)
         (.cons ['a', 'b'] (.dict .nil) (.cons ['a', 'c'] (.dict .nil) .nil)))) := by rfl
 
-/-- three leaves with 2, 0 and 1 slices of width 2 -/
-example : pack [[[1, 2], [3, 4]], [], [[5, 6]]] = .ok (some [[1, 2], [3, 4], [5, 6]]) := by decide
-example : unpack [[1, 2], [3, 4], [5, 6]] [1, 9, 1] = .ok [[[1, 2]], [[3, 4], [5, 6]], []] := by decide
-example : stack [[1, 2], [3, 4]] = .ok (some [[1, 2], [3, 4]]) := by decide
-example : splitAxis [[[1, 2], [3, 4]], [[5], [6]]] = .ok [[[[1, 2]], [[5]]], [[[3, 4]], [[6]]]] := by decide
-example : concat [[[[1, 2]], [[5]]], [[[3, 4]], [[6]]]] = .ok [[[1, 2], [3, 4]], [[5], [6]]] := by decide
+/-- `replace_with_matching_or_default` does raise on well-formed input: an unused replace key with
+ `check_used_all_replace_keys=True` (the hypothesis of `replace_ok_iff` fails), accepted without the check -/
+example : replace '&' exDict (.cons ['q'] (.leaf 7) .nil) 0 true = .error .unused := by rfl
+example : ∃ r, replace '&' exDict (.cons ['q'] (.leaf 7) .nil) 0 false = .ok r :=
+  (replace_ok_iff '&' exDict _ 0 false (by simp [exDict, Dict.NoDup, Val.NoDup, Dict.keys])
+    (by simp [Dict.NoDup, Val.NoDup, Dict.keys])).2
+    ⟨by simp [exDict, Dict.SepFree, Val.SepFree], by simp [Dict.SepFree, Val.SepFree], by simp⟩
+
+/-- three leaves with 2, 0 and 1 slices, off-axis shape `(2,)` -/
+example : pack [⟨[2], [[1, 2], [3, 4]]⟩, ⟨[2], []⟩, ⟨[2], [[5, 6]]⟩]
+    = .ok (some ⟨[2], [[1, 2], [3, 4], [5, 6]]⟩) := by decide
+/-- equal products of the off-axis sizes are not enough (`pack_pytree([zeros((1,2,3)), zeros((1,3,2))], 0)`
+ raises `TypeError`), nor are equal slice widths with different ranks, and a deviating leaf is refused
+ also when it has no slice -/
+example : pack [⟨[2, 3], [[0, 0, 0, 0, 0, 0]]⟩, ⟨[3, 2], [[0, 0, 0, 0, 0, 0]]⟩] = .error .shape := by decide
+example : pack [⟨[6], [[0, 0, 0, 0, 0, 0]]⟩, ⟨[2, 3], [[0, 0, 0, 0, 0, 0]]⟩] = .error .shape := by decide
+example : pack [⟨[2, 3], [[0, 0, 0, 0, 0, 0]]⟩, ⟨[3, 2], []⟩] = .error .shape := by decide
+example : unpack ⟨[2], [[1, 2], [3, 4], [5, 6]]⟩ [1, 9, 1]
+    = .ok [⟨[2], [[1, 2]]⟩, ⟨[2], [[3, 4], [5, 6]]⟩, ⟨[2], []⟩] := by decide
+example : stack [⟨[2], [1, 2]⟩, ⟨[2], [3, 4]⟩] = .ok (some ⟨[2], [[1, 2], [3, 4]]⟩) := by decide
+example : stack [⟨[2, 3], [1, 2, 3, 4, 5, 6]⟩, ⟨[3, 2], [1, 2, 3, 4, 5, 6]⟩] = .error .shape := by decide
+example : splitAxis [⟨[2], [[1, 2], [3, 4]]⟩, ⟨[], [[5], [6]]⟩]
+    = .ok [[⟨[2], [[1, 2]]⟩, ⟨[], [[5]]⟩], [⟨[2], [[3, 4]]⟩, ⟨[], [[6]]⟩]] := by decide
+example : concat [[⟨[2], [[1, 2]]⟩, ⟨[], [[5]]⟩], [⟨[2], [[3, 4]]⟩, ⟨[], [[6]]⟩]]
+    = .ok [⟨[2], [[1, 2], [3, 4]]⟩, ⟨[], [[5], [6]]⟩] := by decide
+example : concat [[⟨[2, 3], []⟩], [⟨[3, 2], [[0, 0, 0, 0, 0, 0]]⟩]] = .error .shape := by decide
 
 /-- the hypotheses of the unconditional inverse theorems hold on non-trivial leaves: three leaves with
- 2, 0 and 1 slices of width 2 (pack); two leaves of size 2 (stack); two trees of two leaves (concat);
- two leaves with 2 slices of width 2 each (split_axis) -/
-example : ∃ arr, pack [[[1, 2], [3, 4]], [], [[5, 6]]] = .ok (some arr) ∧
-    unpack arr [2, 0, 1] = .ok [[[1, 2], [3, 4]], [], [[5, 6]]] :=
-  unpack_pack_consistent (K := Nat) _ (by simp) 2 (by simp)
-example : ∃ arr, stack [[1, 2], [3, 4]] = .ok (some arr) ∧ unstack arr 2 = .ok [[1, 2], [3, 4]] :=
-  unstack_stack_consistent (K := Nat) _ (by simp) 2 (by simp)
-example : ∃ c, concat [[[[1, 2]], [[5, 6]]], [[[3, 4]], []]] = .ok c ∧
-    splitAlong c (1 : Nat) = ([[[1, 2]], [[5, 6]]], [[[3, 4]], []]) :=
-  split_concat_consistent (K := Nat) _ _ 1 (by simp) (by simp) 2 (by simp)
-example : ∃ trees, splitAxis [[[1, 2], [3, 4]], [[5, 7], [6, 8]]] = .ok trees ∧
-    concat trees = .ok [[[1, 2], [3, 4]], [[5, 7], [6, 8]]] :=
-  concat_splitAxis_consistent (K := Nat) _ (by simp) 2 (by simp) (by simp) 2 (by simp)
+ 2, 0 and 1 slices and off-axis shape `(2,)` (pack); two leaves of shape `(2,)` (stack / unstack, both
+ directions); two trees of two leaves with off-axis shapes `(2,)` and `()` (concat / split, split_axis /
+ concat in both directions) -/
+example : ∃ arr, pack [⟨[2], [[1, 2], [3, 4]]⟩, ⟨[2], []⟩, ⟨[2], [[5, 6]]⟩] = .ok (some arr) ∧
+    unpack arr [2, 0, 1] = .ok [⟨[2], [[1, 2], [3, 4]]⟩, ⟨[2], []⟩, ⟨[2], [[5, 6]]⟩] :=
+  unpack_pack_consistent (K := Nat) _ (by simp) [2] (by simp)
+example : ∃ arr, stack [⟨[2], [1, 2]⟩, ⟨[2], [3, 4]⟩] = .ok (some arr) ∧
+    unstack arr 2 = .ok [⟨[2], [1, 2]⟩, ⟨[2], [3, 4]⟩] :=
+  unstack_stack_consistent (K := Nat) _ (by simp) [2] (by simp)
+example : stack [⟨[2], [1, 2]⟩, ⟨[2], [3, 4]⟩] = .ok (some (⟨[2], [[1, 2], [3, 4]]⟩ : Leaf Nat)) :=
+  (stack_unstack (K := Nat) ⟨[2], [[1, 2], [3, 4]]⟩ 2 _ (by decide)).2
+example : ∃ c, concat [[⟨[2], [[1, 2]]⟩, ⟨[], [[5]]⟩], [⟨[2], [[3, 4]]⟩, ⟨[], []⟩]] = .ok c ∧
+    splitAlong c (1 : Nat) = ([⟨[2], [[1, 2]]⟩, ⟨[], [[5]]⟩], [⟨[2], [[3, 4]]⟩, ⟨[], []⟩]) :=
+  split_concat_consistent (K := Nat) _ _ 1 (by simp) (by simp)
+example : ∃ trees, splitAxis [⟨[2], [[1, 2], [3, 4]]⟩, ⟨[1, 2], [[5, 7], [6, 8]]⟩] = .ok trees ∧
+    concat trees = .ok [⟨[2], [[1, 2], [3, 4]]⟩, ⟨[1, 2], [[5, 7], [6, 8]]⟩] :=
+  concat_splitAxis_consistent (K := Nat) _ (by simp) 2 (by simp) (by simp)
+example : splitAxis [⟨[2], [[1, 2], [3, 4]]⟩, ⟨[], [[5], [6]]⟩]
+    = .ok [[(⟨[2], [[1, 2]]⟩ : Leaf Nat), ⟨[], [[5]]⟩], [⟨[2], [[3, 4]]⟩, ⟨[], [[6]]⟩]] :=
+  splitAxis_concat (K := Nat) _ _ (by simp) (by simp) (by decide)
 
 /-- a proper up-sampling pair: `(M, L) = (1, 2)`, modal shape `(1, 2)` to `(2, 3)`, shape `(3, 3)` -/
 example : upsampleFn (K := Int) ⟨1, 2, 1, 2⟩ ⟨2, 3, 3, 3⟩ true true [[5, 6]]
